@@ -918,9 +918,10 @@ def _getNamespaceToClassesFromFullyQualifiedNames(classObj, setOfClasses, is_fil
     namespace_to_class = OrderedDict()
     # Get a dictionary of namespace names, with all classes within.
     for f in setOfClasses:
-        if is_file_include:
-            # If a class is in the same namespace...then it is in the same folder...so clean this first.
-            f = f.replace(classObj.NAMESPACE + "::", "")
+        if is_file_include and classObj.NAMESPACE and f.startswith(classObj.NAMESPACE + "::"):
+            # If a class is in the same namespace (or in one nested in it)...then it is in the same folder (or below it)...so clean this first.
+            # Only the leading namespace: a class without namespace has nothing to clean, and the text may occur elsewhere in the name.
+            f = f[len(classObj.NAMESPACE) + 2:]
         full = f.split("::")
         ns = f.replace(full[-1], "")
         if is_file_include:  # when using this for include files, switch :: with /
